@@ -63,6 +63,9 @@ def run(tier, seed):
             # the directory's own path contains an id; a directory without top-level files whose subdirectories have files
             variants += [(['-d', ghost], files, ghost), (['-d', pid], files, pid), (['-D'], files, ghost),
                          (['-D'], [], None), (['-d', pid], [], None), (['-l'], [], None), (['-j', '-c'], [], None)]
+            # always: --json (with and without --clean) into an output directory where the first output name already exists as a directory
+            forced = [['-j'], ['-j', '-c']]
+            variants += [(fa, files, None) for fa in forced]
             for argv, files, in_path in variants:
                 base = None
                 if in_path:
@@ -72,11 +75,12 @@ def run(tier, seed):
                 paths.append(path)
                 outdir = None
                 extra = []
-                if '-j' in argv and rng.random() < 0.6:
+                force = any(argv is fa for fa in forced)
+                if '-j' in argv and (force or rng.random() < 0.6):
                     outdir = clirun.make_dir([])
                     paths.append(outdir)
                     extra = ['-o', outdir]
-                    if files and files[0][0] in dict(d) and rng.random() < 0.5:
+                    if files and files[0][0] in dict(d) and (force or rng.random() < 0.5):
                         # the name --json is about to write already exists as a DIRECTORY: nothing may be left behind under another name
                         n0, p0 = files[0][0], dict(d)[files[0][0]]
                         os.makedirs(os.path.join(outdir, '%s.0x%08X.json' % (n0, p0['ph']['eid'])), exist_ok=True)
